@@ -83,7 +83,34 @@ TLV = Stage(
     nontrivial=lambda e: True,
 )
 
+SESSION = Stage(
+    family="session",
+    mc={"quick": [("MC_Session.tla", "MC_Session.cfg", "pass"), ("MC_Session.tla", "MC_Session_neg.cfg", "fail")],
+        "thorough": [("MC_Session.tla", "MC_Session_t.cfg", "pass"), ("MC_Session.tla", "MC_Session_neg.cfg", "fail")]},
+    parts={"quick": [("exchange", 2), ("dispatch", 2)], "thorough": [("exchange", 4), ("dispatch", 4)]},
+    trace=("Trace_Session.tla", "Trace_Session.cfg"),
+    nontrivial=lambda e: e.get("ev") != "Start",
+)
+
 CHECKS = {
+    "C10": dict(
+        stages=[SESSION],
+        technique="TLA+ session state machine over the command tables of Layouts.tla (Session.tla): TLC exhaustive over all "
+                  "interleavings of outstanding requests + TLC validation of recorded real exchanges and dispatcher sweeps",
+        level_text="TLC checks that every response in flight matches exactly one outstanding request for all request command "
+                   "ids of the five packages, boundary sequence identifiers and <=2 (thorough 3) outstanding requests in every "
+                   "interleaving, plus table consistency (response = request + 2^31, no shared ids); a bind response fixed to "
+                   "'transceiver' is the negative configuration.  Real exchanges (every request type, every boundary sequence "
+                   "number, all three bind flavours, SGIP with three distinct sequence words, several outstanding requests "
+                   "answered in any order, constructors) are validated action by action: SetSequenceID visible in getter and "
+                   "header, dispatcher type = Dispatch(pkg, command), GetCommand = header command, response type/command/"
+                   "sequence identifier, responses generate none, each response matches exactly one outstanding request; every "
+                   "encodable type and random command ids go through each dispatcher",
+        level_note="request/response and command tables are my transcription of the protocol documents (Layouts.tla); the 2^32 "
+                   "command ids are sampled (all defined ids, 0..63 with and without the response bit, random others)",
+        rule="one event per library call in an exchange (Send/SRecv/Reply/CRecv) or dispatcher probe (Disp); distinct = distinct events",
+        assumptions=["type names obtained by reflection", "user-built requests carry the command id of their type in the header"],
+    ),
     "C16": dict(
         stages=[TLV],
         technique="TLA+ model of triplet containers (Tlv.tla): TLC exhaustive on both parser-loop variants and the serialiser's "
